@@ -158,6 +158,27 @@ func (x *Exec) scanGlobals(l *Loaded) {
 		}
 		for _, b := range f.Blocks {
 			for _, in := range b.Instrs {
+				// the address of a package-level variable that goes anywhere but into a load, a store
+				// or a field/element address may be written through later: not a constant then
+				for _, op := range in.Operands(nil) {
+					g, isG := (*op).(*ssa.Global)
+					if !isG || g.Pkg == nil || !strings.HasPrefix(g.Pkg.Pkg.Path(), modPath) {
+						continue
+					}
+					switch i := in.(type) {
+					case *ssa.UnOp:
+						continue // a load
+					case *ssa.FieldAddr, *ssa.IndexAddr:
+						continue // followed by rootGlobal below
+					case *ssa.Store:
+						if i.Addr == *op {
+							continue
+						}
+					case *ssa.DebugRef:
+						continue
+					}
+					written[g] = true
+				}
 				switch i := in.(type) {
 				case *ssa.Store:
 					if g := rootGlobal(i.Addr); g != nil {
@@ -166,6 +187,13 @@ func (x *Exec) scanGlobals(l *Loaded) {
 				case *ssa.MapUpdate:
 					if g := rootGlobal(i.Map); g != nil {
 						written[g] = true
+					}
+				case *ssa.Call:
+					// delete(m, k) and clear(m) on a package-level map or slice are writes too
+					if b, isB := i.Call.Value.(*ssa.Builtin); isB && (b.Name() == "delete" || b.Name() == "clear" || b.Name() == "copy") && len(i.Call.Args) > 0 {
+						if g := rootGlobal(i.Call.Args[0]); g != nil {
+							written[g] = true
+						}
 					}
 				}
 			}
